@@ -94,6 +94,7 @@ type Exec struct {
 	fsSeq       int
 	fsModelOn   bool
 	fsFaultBudget int
+	stubSeq     int
 	callerFile  Str
 	callerLine  *Term
 	curFn       *ssa.Function
